@@ -21,7 +21,7 @@ func init() {
 		Technique: "abstract interpretation of every Update and of every _deploy with isUpdate fixed to true: gate entailment, version-bound facts at every effect and exit, write-set inclusion in the migration table with per-entry version guards, move/re-visit rules over the key schemas of the migration loops",
 		Explanation: "D1 all 11 Update methods call management.update only under the documented majority (committee, resp. the NeoFS Alphabet designated for the next block for neofs/processing) and pass AppendVersion(data), i.e. the running Version constant appended. " +
 			"D2 every _deploy(isUpdate = true) establishes PrevVersion ≤ v < Version for v = the last element of data at every effect and at every normal exit; PrevVersion < Version. D3 the update side never reaches the fresh-deploy initialisation and its write set is contained in the migration table (DESIGN App. C), each entry under its version guard. " +
-			"D4 migrations are moves — Put(prefix‖key, value) and Delete(key) of the same scanned item — selected by key length, and re-visit safe (the inserted keys have a length that is not selected); the in-place rewrites (netmap, nns) store values derived from the scanned value under the scanned key. D5 a migration step is gone round only with version ≥ its recorded layout-change version (skip-edge rule). D6 index-keyed in-place rewrites run over the stored count. M: every documented migration step whose layout-change version lies above PrevVersion is reachable; migration loops end only on exhaustion. R6: Version and PrevVersion are linear forms with equal weights over disjoint declared components, every declared component enters one of them. R7: the window agreement between Vote and TryPurgeVotes (C17) is decided here as well: the legacy migrations rely on TryPurgeVotes to detect a pending vote.",
+			"D4 migrations are moves — Put(prefix‖key, value) and Delete(key) of the same scanned item — selected by key length, and re-visit safe (the inserted keys have a length that is not selected); the in-place rewrites (netmap, nns) store values derived from the scanned value under the scanned key. D5 a migration step is gone round only with version ≥ its recorded layout-change version (skip-edge rule). D6 index-keyed in-place rewrites run over the stored count. M: every documented migration step whose layout-change version lies above PrevVersion is reachable; migration loops end only on exhaustion. R6: Version and PrevVersion are linear forms with equal weights over disjoint declared components, every declared component enters one of them. R7: the window agreement between Vote and TryPurgeVotes (C17) is decided here as well: the legacy migrations rely on TryPurgeVotes to detect a pending vote. R10: every scanned item of the selected key length is moved by a migration loop; the declared field order and types of every struct type of the contracts and of common equal the recorded layout of the data in storage (renames in place and appended fields accepted).",
 		NotCovered: "preservation of the read API for arbitrary prior storages (value level); behaviour of the native management contract.",
 		Run:        runC16,
 	})
@@ -79,10 +79,23 @@ func runC16(cx *CheckCtx) {
 	}
 	cx.decide(prev < version, "version-bounds", "common.PrevVersion<Version", fmt.Sprintf("%d < %d", prev, version), fmt.Sprintf("PrevVersion (%d) is not below Version (%d): no deployed version can be updated", prev, version), "common/version.go")
 	checkVersionComponents(cx)
+	// data preservation: the records an upgrade finds in storage are read with the layout they were written in
+	checkStoredLayouts(cx)
 	// the legacy migrations refuse to run over a pending vote (TryPurgeVotes): what they take for "pending"
 	// must be what Vote takes for "alive" (shared with C17)
 	runC17Common(cx, w)
 	for _, cn := range w.CNames {
+		checkUpgradeOf(cx, cn, version, prev)
+	}
+	cx.floor("update_methods", 11)
+	cx.floor("deploy_methods", 11)
+}
+
+// checkUpgradeOf: the upgrade rules of one contract (D1–D4 of C16); also run for the Balance contract
+// under C01/C02/C09, whose statements are about balances that an upgrade must carry over.
+func checkUpgradeOf(cx *CheckCtx, cn string, version, prev int64) {
+	w := cx.W
+	{
 		_ = w.Contracts[cn]
 		// ---- D1 Update
 		if m := cx.method(cn, "Update"); m != nil {
@@ -142,7 +155,7 @@ func runC16(cx *CheckCtx) {
 		// ---- D2/D3 _deploy(isUpdate = true)
 		dm := cx.method(cn, "_deploy")
 		if dm == nil {
-			continue
+			return
 		}
 		a := cx.runWith(dm, map[int]constant.Value{1: constant.MakeBool(true)}, "upd")
 		tb := a.tb
@@ -157,7 +170,7 @@ func runC16(cx *CheckCtx) {
 		}
 		if vT == nil {
 			cx.violated("version-check", cn+"._deploy", "the update path of _deploy does not compare the version it is updated from with PrevVersion", w.pos(dm.Fn.Pos()))
-			continue
+			return
 		}
 		data := tb.mk("param", "0:data", 0)
 		okSrc := vT.contains(func(x *Term) bool { return x == data }) && vT.Op == "index" &&
@@ -312,8 +325,6 @@ func runC16(cx *CheckCtx) {
 		}
 	}
 	_ = c16unused
-	cx.floor("update_methods", 11)
-	cx.floor("deploy_methods", 11)
 }
 
 var c16unused = 0
@@ -383,6 +394,13 @@ func checkMoves(cx *CheckCtx, a *Analysis, cn string) {
 					okL = false
 				}
 			}
+		}
+		// every item of the selected length is moved: an iteration goes round the move only for a key of
+		// another length (a filter on the key's *content* — "starts with the new prefix" — leaves the old
+		// entries whose first byte happens to be that prefix where the new code does not look)
+		if m.L >= 0 {
+			okE, whyE := everyElement(a, m.put, func(st *CNF) bool { return a.holdsAt(st, -a.litEqC(a.litLen(k), int64(m.L))) })
+			cx.decide(okE, "migration-move", skey+"/every-selected", fmt.Sprintf("every scanned item with len(key) == %d is moved", m.L), fmt.Sprintf("a scanned item with len(key) == %d can be left where it is (%s): entries of the old layout survive the upgrade under keys the new code never reads", m.L, whyE), m.put.Where(w))
 		}
 		cx.decide(okL, "migration-move", skey+"/revisit", fmt.Sprintf("selected by len(key) == %d; inserted keys have length %d which is not selected", m.L, m.L+1), "the migration selects entries by a key length that its own inserted keys can have (or by none): entries are migrated twice when the scan reaches them", m.put.Where(w))
 	}
